@@ -238,11 +238,15 @@ class EstimationMethod:
         mutations.time = np.full_like(mutations.time, tskit.UNKNOWN_TIME)
         mutations.parent = np.full_like(mutations.parent, tskit.NULL)
 
+        migrations = tables.migrations.copy()
         tables.sort()  # need to sort before computing parents and times
         tables.build_index()
         # If mutation nodes have been switched, we may need to recalculate parents
         tables.compute_mutation_parents()
         tables.compute_mutation_times()
+        # sort() and compute_mutation_times() also reorder migrations that have equal
+        # times; keep the input's order (by time, which is all that is required)
+        tables.migrations.replace_with(migrations)
         num_root_muts = np.sum(mutations.time == nodes.time[mutations.node])
         logging.info(
             f"Set ages of {num_root_muts} nonsegregating mutations to root times."
